@@ -167,6 +167,10 @@ func RoutePatternMatch(path, pattern string, cfg ...Config) bool {
 	if !config.StrictRouting && len(path) > 1 {
 		path = utils.TrimRight(path, '/')
 		detectionPath = utils.TrimRight(detectionPath, '/')
+		// a path of slashes only is the root (as in request dispatch)
+		if path == "" {
+			path, detectionPath = "/", "/"
+		}
 	}
 
 	parser, _ := routerParserPool.Get().(*routeParser) //nolint:errcheck // only contains routeParser
